@@ -35,13 +35,14 @@ type c01reader struct {
 	Slow   bool   `json:"slow"`
 	Reord  int    `json:"reord"` // UDP: percentage of datagrams swapped with their successor
 	Dup    int    `json:"dup"`   // UDP: percentage of datagrams delivered twice
+	Late   bool   `json:"late"`  // sync: connects after the first round; packets are written between its DESCRIBE and its SETUPs
 }
 
 type c01scn struct {
 	Seed    int64       `json:"seed"`
 	Mode    string      `json:"mode"`
 	NM      int         `json:"nm"`
-	XF      int         `json:"xf"` // additional formats on the first media
+	XF      int         `json:"xf"`  // additional formats on the first media
 	Arb     bool        `json:"arb"` // arbitrary sequence numbers (all readers on reliable transports)
 	TLS     bool        `json:"tls"`
 	Queue   int         `json:"queue"`
@@ -118,7 +119,10 @@ func c01gen(rng *rand.Rand, i int) *c01scn {
 	if sc.Mode == "record" {
 		nr = 1
 	}
-	sc.Arb = rng.Intn(3) == 0
+	// arbitrary sequence numbers only without SRTP: the SRTP packet index is derived from the
+	// sequence number history (RFC 3711 3.3.1), which a reader that joins late or pauses does
+	// not share with the sender when the numbers jump arbitrarily
+	sc.Arb = rng.Intn(3) == 0 && !sc.TLS
 	for r := 0; r < nr; r++ {
 		rd := c01reader{Proto: "tcp"}
 		switch rng.Intn(6) {
@@ -144,6 +148,7 @@ func c01gen(rng *rand.Rand, i int) *c01scn {
 				sc.Rounds = 3
 			}
 		}
+		rd.Late = sc.Mode == "sync" && r > 0 && rng.Intn(3) == 0
 		sc.Readers = append(sc.Readers, rd)
 		if rd.Proto == "udp" {
 			sc.Arb = false
@@ -208,8 +213,17 @@ func c01run(sc *c01scn, s *vt.Sink) error {
 	defer bd.Close()
 
 	spec := &bed.PacketSpec{MaxPL: 1200, ArbSeq: sc.Arb}
+	anyLate := false
+	for _, r := range sc.Readers {
+		anyLate = anyLate || r.Late
+	}
 	for k := 1; k <= nk; k++ {
 		spec.Seq0[k] = uint16(65536 - rng.Intn(60))
+		if anyLate {
+			// the wrap falls near the end of the first round: for a reader that connects then,
+			// between its DESCRIBE and its SETUPs
+			spec.Seq0[k] = uint16(65536 - sc.Burst/nk - 2 - rng.Intn(4))
+		}
 		spec.TS0[k] = uint32(0xFFFFFFFF - uint32(rng.Intn(200000)))
 	}
 	streams := c01streams(bd.Desc)
@@ -243,7 +257,8 @@ func c01run(sc *c01scn, s *vt.Sink) error {
 	}
 
 	var readers []*c01rstate
-	for i, rc := range sc.Readers {
+	var writeFn func() // set below; used by late readers between DESCRIBE and SETUP
+	mkReader := func(i int, rc c01reader) error {
 		st := &c01rstate{cfg: rc, idx: i + 1}
 		smu.Lock()
 		connecting = st
@@ -269,17 +284,34 @@ func c01run(sc *c01scn, s *vt.Sink) error {
 				time.Sleep(2 * time.Millisecond)
 			}
 		}
+		var after func()
+		if rc.Late {
+			after = func() {
+				for k := 0; k < 3+sc.Burst/2 && writeFn != nil; k++ {
+					writeFn()
+				}
+			}
+		}
 		rd, err := bd.NewReader(bed.ReaderCfg{Proto: rc.Proto, Tunnel: rc.Tunnel, Timeout: 8 * time.Second,
-			Reorder: rc.Reord, Dup: rc.Dup, Seed: sc.Seed + int64(i)}, "stream", onPkt)
+			Reorder: rc.Reord, Dup: rc.Dup, Seed: sc.Seed + int64(i), AfterDescribe: after}, "stream", onPkt)
 		if err != nil {
 			return fmt.Errorf("c01: reader %d (%+v, tls=%v): %w", i+1, rc, sc.TLS, err)
 		}
 		st.rd = rd
 		readers = append(readers, st)
+		smu.Lock()
+		connecting = nil
+		smu.Unlock()
+		return nil
 	}
-	smu.Lock()
-	connecting = nil
-	smu.Unlock()
+	for i, rc := range sc.Readers {
+		if rc.Late && sc.Mode == "sync" {
+			continue
+		}
+		if err := mkReader(i, rc); err != nil {
+			return err
+		}
+	}
 	defer func() {
 		for _, r := range readers {
 			r.rd.Close()
@@ -302,6 +334,7 @@ func c01run(sc *c01scn, s *vt.Sink) error {
 			}
 		}
 	}
+	writeFn = write
 	play := func(r *c01rstate) error {
 		if _, err := r.rd.C.Play(nil); err != nil {
 			return fmt.Errorf("c01: play reader %d: %w", r.idx, err)
@@ -335,6 +368,15 @@ func c01run(sc *c01scn, s *vt.Sink) error {
 
 	if sc.Mode == "sync" {
 		for round := 0; round < sc.Rounds; round++ {
+			if round == 1 {
+				for i, rc := range sc.Readers {
+					if rc.Late {
+						if err := mkReader(i, rc); err != nil {
+							return err
+						}
+					}
+				}
+			}
 			for _, r := range readers {
 				if !r.gone && !r.streaming && (round == 0 || rng.Intn(2) == 0) {
 					if err := play(r); err != nil {
